@@ -527,6 +527,122 @@ pub fn kzg_batch_threads(rec: &mut Rec, prop: &str) {
     }
 }
 
+
+/// C01 slice F for the special APIs: three key universes each for KZG10 direct, MultilinearPC and streaming KZG, every
+/// sequence of up to three flows in one process; every flow accepts and reproduces its outputs bit for bit.
+pub fn c01_special_universes(rec: &mut Rec) {
+    use sha2::{Digest, Sha256};
+    let seed = rec.seed;
+    // universe = (size parameter, setup seed index)
+    let flow = |api: &str, size: usize, k: usize| -> Result<String, String> {
+        let mut h = Sha256::new();
+        let r = rho_stream::<Fr381>(seed, 61, 40);
+        match api {
+            "KZG" => {
+                let pp = catch(|| kzg_setup(size, false, seed, k)).map_err(|e| e)?;
+                let vk = kzg_vk(&pp);
+                let powers = kzg_powers(&pp, size + 1, 3);
+                let p = UP::<Fr381>::from_coefficients_slice(&r[..=size]);
+                for hid in [None, Some(1usize)] {
+                    let mut rng = seed_rng(seed, 0);
+                    let (c, st) = flat(catch(|| Kzg::commit(&powers, &p, hid, Some(&mut rng as &mut dyn RngCore)))).map_err(|o| o.short())?;
+                    let pf = flat(catch(|| Kzg::open(&powers, &p, r[30], &st))).map_err(|o| o.short())?;
+                    h.update(ser(&c));
+                    h.update(ser(&pf));
+                    if !kzg_check(&vk, &c, r[30], p.evaluate(&r[30]), &pf).accepted() {
+                        return Err("honest KZG10 opening not accepted".into());
+                    }
+                    if kzg_check(&vk, &c, r[30], p.evaluate(&r[30]) + Fr381::one(), &pf).accepted() {
+                        return Err("false KZG10 claim accepted".into());
+                    }
+                }
+            }
+            "MLP" => {
+                let mut rng = seed_rng(seed, 10 + k);
+                let (ck, vk) = catch(|| {
+                    let pp = Mlp::setup(size, &mut rng);
+                    Mlp::trim(&pp, size)
+                })?;
+                let p = ml_shapes::<Fr381>(size, seed).pop().unwrap().1;
+                let z = ml_points::<Fr381>(size, seed)[0].1.clone();
+                let (c, pf) = catch(|| (Mlp::commit(&ck, &p), Mlp::open(&ck, &p, &z)))?;
+                h.update(ser(&ck));
+                h.update(ser(&c));
+                h.update(ser(&pf));
+                if !mlp_check(&vk, &c, &z, p.evaluate(&z), &pf).accepted() {
+                    return Err("honest MultilinearPC opening not accepted".into());
+                }
+                if mlp_check(&vk, &c, &z, p.evaluate(&z) + Fr381::one(), &pf).accepted() {
+                    return Err("false MultilinearPC claim accepted".into());
+                }
+            }
+            _ => {
+                let ck = catch(|| str_key(size, 3, seed + 1000 * k as u64))?;
+                let vk = SVk::from(&ck);
+                let coeffs = r[..size].to_vec();
+                let pts = vec![r[30], r[31]];
+                let (c, (v, pf), (evs, mpf)) = catch(|| (ck.commit(&coeffs), ck.open(&coeffs, &r[30]), {
+                    let mp = ck.open_multi_points(&coeffs, &pts);
+                    let evs: Vec<Fr381> = pts.iter().map(|z| crate::refm::horner(&coeffs, *z)).collect();
+                    (evs, mp)
+                }))?;
+                h.update(ser(&c.verif_inner()));
+                h.update(ser(&pf.0));
+                h.update(ser(&mpf.0));
+                if !str_verify(&vk, &c, &r[30], &v, &pf).accepted() {
+                    return Err("honest streaming opening not accepted".into());
+                }
+                let eta = r[32];
+                let ok = catch(|| vk.verify_multi_points(&[c], &pts, &[evs.clone()], &mpf, &eta).is_ok())?;
+                if !ok {
+                    return Err("honest streaming multi-point opening not accepted".into());
+                }
+            }
+        }
+        Ok(hex(&h.finalize()[..8]))
+    };
+    for api in ["KZG", "MLP", "STR"] {
+        let us: Vec<(usize, usize)> = match api {
+            "KZG" => vec![(6, 0), (6, 1), (9, 0)],
+            "MLP" => vec![(3, 0), (3, 1), (4, 0)],
+            _ => vec![(8, 0), (8, 1), (12, 0)],
+        };
+        rec.scope(format!("{}: slice F, every sequence of 1..3 flows over the key universes (size, setup seed) {:?}", api, us));
+        let mut base: Vec<Option<String>> = vec![None; us.len()];
+        let n = us.len();
+        for len in 1..=3usize {
+            for code in 0..n.pow(len as u32) {
+                let seq: Vec<usize> = (0..len).map(|i| code / n.pow(i as u32) % n).collect();
+                let id = format!("{}/F/{}", api, seq.iter().map(|i| format!("U{}", i)).collect::<Vec<_>>().join(">"));
+                if !rec.take(&id) {
+                    continue;
+                }
+                rec.dim("scheme", api);
+                rec.dim("slice", "F");
+                for (pos, u) in seq.iter().enumerate() {
+                    if base[*u].is_none() {
+                        base[*u] = Some(flow(api, us[*u].0, us[*u].1).unwrap_or_else(|e| format!("failed: {}", e)));
+                    }
+                    rec.op(5);
+                    match flow(api, us[*u].0, us[*u].1) {
+                        Ok(dg) => {
+                            let same = Some(&dg) == base[*u].as_ref();
+                            rec.class(if same { "flow-reproduced" } else { "flow-differs" });
+                            if !same {
+                                rec.violation(&format!("C01/{}/flow/interleaved-keys/outputs-depend-on-history", api), &id, format!("flow on U{} at position {} of {:?} produced digest {} but {} before", u, pos, seq, dg, base[*u].clone().unwrap()));
+                            }
+                        }
+                        Err(e) => {
+                            rec.class("flow-failed");
+                            rec.violation(&format!("C01/{}/flow/interleaved-keys/flow-fails", api), &id, format!("flow on U{} {:?} at position {} of {:?} failed: {}", u, us[*u], pos, seq, e));
+                        }
+                    }
+                }
+            }
+        }
+    }
+}
+
 fn c02_expect(rec: &mut Rec, d: &Dec, sch: &str, entry: &str, op: &str, id: &str, detail: String) {
     rec.count_points(1);
     rec.op(1);
